@@ -345,7 +345,7 @@ func c09magic(pkg string) func(c *an.Ctx) {
 			// compared with a 4-character constant somewhere?
 			isMagic := false
 			for _, r := range an.Referrers(cv) {
-				if b, ok := r.(*ssa.BinOp); ok && b.Op == token.EQL {
+				if b, ok := r.(*ssa.BinOp); ok && (b.Op == token.EQL || b.Op == token.NEQ) {
 					if s, ok := an.ConstString(b.Y); ok && len(s) == 4 {
 						isMagic = true
 					}
